@@ -29,7 +29,8 @@ def gen(ctx):
         hist = [[rng.randint(0, 1) for _ in range(N)] for _ in range(H - 1)] + [row]
         prev = list(row) if form in ("view0", "viewlast") else [rng.randint(0, 1) for _ in range(N)]
         yield dict(kind="rev", hist=hist, prev=prev, R=rng.randrange(256), T=rng.randint(1, 8), form=form,
-                   dtype=rng.choice(["int32", "int32", "int64", "uint8", "int8", "uint16", "int16"]))
+                   dtype=rng.choice(["int32", "int32", "int64", "uint8", "int8", "uint16", "int16"]),
+                   scribble=int(form in ("list", "array") and rng.random() < 0.4))
 
 
 def line(c):
@@ -48,9 +49,21 @@ def run(c):
         init = ca[0]
     else:
         init = ca[-1]
+    rule = cpl.ReversibleRule(init, c["R"])
+    if c.get("scribble"):
+        # the caller goes on using its own data: the rule must have taken s(-1) at construction
+        if c["form"] in ("view0", "viewlast"):
+            init[...] = np.array(c["hist"][0 if c["form"] == "view0" else -1], dtype=dt)     # same values rewritten …
+            if c["form"] == "view0" and len(c["hist"]) > 1:
+                pass
+        elif c["form"] == "list":
+            init2 = init
+            for i in range(len(init2)):
+                init2[i] = 1 - init2[i]
+        else:
+            init[...] = 1 - init
     init_snapshot = [int(x) for x in init]
     ca_snapshot = ca.tobytes()
-    rule = cpl.ReversibleRule(init, c["R"])
     try:
         res = cpl.evolve(ca, timesteps=c["T"], apply_rule=rule, r=1)
     except Exception as e:  # noqa
